@@ -549,9 +549,14 @@ ABSTRACT_CLASSES = {
 }
 
 
+_INTROSPECT_CACHE = []
+
+
 def introspect():
     """All Operator subclasses defined at module level in odl (without
     contrib / tests), diffed against the classes the catalogue claims."""
+    if _INTROSPECT_CACHE:
+        return _INTROSPECT_CACHE[0]
     found = {}
     for m in pkgutil.walk_packages(odl.__path__, 'odl.'):
         if '.contrib' in m.name or '.test' in m.name or \
@@ -576,11 +581,13 @@ def introspect():
     missing = sorted(k for k in found
                      if k[1] not in claimed and k[1] not in ABSTRACT_CLASSES)
     local = sorted(claimed - {k[1] for k in found})
-    return {'classes_total': total, 'classes_with_builder': len(covered),
-            'classes_exempt': ['{}.{} ({})'.format(m, n, ABSTRACT_CLASSES[n])
-                               for m, n in exempt],
-            'classes_missing': ['{}.{}'.format(m, n) for m, n in missing],
-            'local_classes_claimed': local}
+    _INTROSPECT_CACHE.append({
+        'classes_total': total, 'classes_with_builder': len(covered),
+        'classes_exempt': ['{}.{} ({})'.format(m, n, ABSTRACT_CLASSES[n])
+                           for m, n in exempt],
+        'classes_missing': ['{}.{}'.format(m, n) for m, n in missing],
+        'local_classes_claimed': local})
+    return _INTROSPECT_CACHE[0]
 
 
 def coverage_statement():
@@ -1044,8 +1051,11 @@ def _flatten(o):
 
 # --- odl.operator.pspace_ops ----------------------------------------------
 
+# 'matsq' and 'pdiff' are deliberately NOT alias-safe (dense dot / stencil
+# reading its input while writing): they make missing temporaries of the
+# expression classes visible to C03
 ENDO_KINDS = ['scale', 'ident', 'mult', 'sin', 'exp', 'square', 'const',
-              'zero', 'vecsum', 'absolute']
+              'zero', 'vecsum', 'absolute', 'matsq', 'matsq', 'pdiff']
 
 
 def endo(o, key, kinds=None, linear=False):
@@ -1074,6 +1084,20 @@ def endo(o, key, kinds=None, linear=False):
             return odl.ZeroOperator(sp)
         if k == 'vecsum':
             return odl.IdentityOperator(sp) - vec(sp, seed)
+        if k == 'lapl' and isinstance(sp, odl.DiscretizedSpace):
+            return odl.Laplacian(sp, pad_mode='symmetric')
+        if k in ('matsq', 'pdiff', 'lapl'):
+            leaf = not isinstance(sp, ProductSpace) and sp.is_real
+            if k == 'matsq' and leaf and sp.ndim == 1:
+                return odl.MatrixOperator(
+                    _matrix(seed, sp.size, sp.size, dtype=sp.dtype),
+                    domain=sp, range=sp)
+            if k == 'pdiff' and leaf and min(sp.shape) >= 2 and \
+                    isinstance(sp, odl.DiscretizedSpace):
+                return odl.PartialDerivative(sp, seed % sp.ndim,
+                                             pad_mode='symmetric')
+            return odl.ScalingOperator(sp, s) * odl.MultiplyOperator(
+                vec(sp, seed))
         if k == 'prox':
             fac = [PO.proximal_l1, PO.proximal_l2, PO.proximal_l2_squared,
                    PO.proximal_convex_conj_l1][seed % 4]
@@ -1376,6 +1400,11 @@ def _resizing(o):
     give = o.pick('give', ('ran_shp', 'ran_shp+offset', 'range'))
     how = o.pick('how', ('op', 'op', 'adjoint', 'derivative', 'adjadj'))
     nob = o.flag('discr_nob')
+    if nob and give == 'ran_shp' and how == 'derivative':
+        # (ResizingOperator.derivative rebuilds the operator from domain and
+        # range and rejects a range made with nodes_on_bdry: a constructor
+        # matter of C16/C06, not of the call protocol)
+        how = 'op'
 
     def mk():
         sp = B(sd)
@@ -1589,12 +1618,22 @@ def expr(o, key, depth, linear=False, force=None, leaves=None):
 def _expr_entry(kind, cls):
     @entry('expr.' + kind, 'expr', classes=[cls], weight=2)
     def _f(o):
-        sd = anyspace(o, 'space', kinds=('rn', 'discr', 'cn'), medium=True)
+        # every third case uses operands that are NOT alias-safe (stencils)
+        # on a discretized space: a missing temporary becomes visible
+        unsafe = o.pick('unsafe', (False, False, True))
+        if unsafe:
+            sd = space(o, 'space', kinds=('discr',), min_side=3, max_side=6,
+                       max_size=40, medium=False, weighted=False)
+        else:
+            sd = anyspace(o, 'space', kinds=('rn', 'discr', 'cn'),
+                          medium=True)
         depth = o.pick('depth', (1, 1, 2))
-        lin = o.flag('linear') and kind in ('sum', 'comp', 'lscal', 'rscal',
-                                            'neg')
+        lin = o.flag('linear') and not unsafe and kind in (
+            'sum', 'comp', 'lscal', 'rscal', 'neg')
         # the top-level node kind is fixed, the operands are drawn
-        e = expr(o, 't', depth, lin, force=kind)
+        e = expr(o, 't', depth, lin, force=kind,
+                 leaves=['pdiff', 'lapl', 'pdiff', 'scale', 'mult']
+                 if unsafe else None)
         o.dom = 'mod'
         return lambda: e(B(sd))
     return _f
